@@ -31,7 +31,7 @@ var c19harness = []ref.FunSig{run.SigTr, run.SigBoom, run.SigHsub, run.SigHpair,
 func checkC19(c *ProgCase) *Outcome {
 	if run.HostableEnv(c.Env) && !hasFunEnv(c) {
 		// host data has one field order per position: use values that say the same
-		c = &ProgCase{E: c.E, Env: c.Env, Vals: conformAll(c.Vals), Extra: c.Extra, Print: c.Print, Stats: c.Stats}
+		c = &ProgCase{E: c.E, Env: c.Env, Vals: conformAll(c.Vals), Extra: c.Extra, Ops: c.Ops, Print: c.Print, Stats: c.Stats}
 	}
 	r := refRun(c)
 	if r.RefErr != nil {
@@ -54,6 +54,9 @@ func checkC19(c *ProgCase) *Outcome {
 
 	// ---- (b) DebugCompile + Record through the hook
 	en := run.NewEngine(run.Closure, c.Extra)
+	if len(c.Ops) > 0 {
+		en.E.RegisterOperator(run.YaeOps(c.Ops)...)
+	}
 	en.E.UseCompiler(closure.DebugCompile)
 	callable, cerr, cp := en.CompileSrc(r.Src, c.Env)
 	if cp != nil || cerr != nil {
@@ -181,7 +184,7 @@ func checkC19(c *ProgCase) *Outcome {
 		}
 	})
 	apiChecked := false
-	if run.HostableEnv(c.Env) && !hasFunEnv(c) && !usesHarness {
+	if run.HostableEnv(c.Env) && !hasFunEnv(c) && !usesHarness && len(c.Ops) == 0 {
 		apiChecked = true
 		judge := func(host interface{}, what string) *Outcome {
 			var dv, evv *val.Val
@@ -317,16 +320,45 @@ func withBlanks(g func(t *rapid.T) *ProgCase) func(t *rapid.T) *ProgCase {
 	}
 }
 
+// genPostfixCase: programs using a user-registered postfix operator (!! :: num -> num), whose
+// own token comes AFTER its operand
+func genPostfixCase(t *rapid.T) *ProgCase {
+	o := c19opt
+	o.NoPick = true // a lazy function that forces one operand twice records one term twice (outside the domain)
+	g := gen.NewG(t, o)
+	post := func() *m.Expr { return m.Postfix("!!", g.Expr(m.Num)) }
+	var e *m.Expr
+	switch rapid.IntRange(0, 4).Draw(t, "postfixform") {
+	case 0:
+		e = post()
+	case 1:
+		e = m.Infix("+", post(), g.Expr(m.Num))
+	case 2:
+		e = m.Call("max", g.Expr(m.Num), post())
+	case 3:
+		e = m.Postfix("!!", m.Postfix("!!", g.Expr(m.Num)))
+	default:
+		e = m.Call("if", m.Infix("<", post(), g.Expr(m.Num)), post(), g.Expr(m.Num))
+	}
+	e = gen.Parenthesize(e)
+	extra := append(append([]ref.FunSig(nil), run.StdHarness...), run.SigPost)
+	return &ProgCase{E: e, Env: g.Env, Vals: g.Vals, Extra: extra, Stats: g.Stats,
+		Ops: []ref.Op{{Name: "!!", BP: 12.5, Fix: "postfix"}}}
+}
+
+var c19post = Register(&Prop[ProgCase]{ID: "C19", Name: "debug-record-postfix-operator", Gen: withBlanks(genPostfixCase), Check: checkC19})
+
 var c19 = Register(&Prop[ProgCase]{ID: "C19", Name: "debug-record", Gen: withBlanks(genProgCaseNoPick(c19opt)), Check: checkC19})
 
 var c19apiOpt = gen.ProgOpt{Fuel: 4, Partial: true, Sugar: true, Maybe: true, Times: true, Harness: false, Poison: false, HostEnv: true}
 var c19api = Register(&Prop[ProgCase]{ID: "C19", Name: "debug-api", Gen: withBlanks(genProgCase(c19apiOpt, nil)), Check: checkC19})
 
 func TestC19(t *testing.T) {
-	R.Rule = "accepted single-line programs (ASCII and non-ASCII identifiers and strings, blanks / tabs / carriage returns between tokens, sugar, unevaluated lazy branches, failing operands) over conforming environments; oracle: (a) yae.Debug returns the same value / failure as Eval and the reference, with the environment as a Go struct and again as map[string]interface{} after a call with the same source over a differently typed map of the same Go type; (b) closure.DebugCompile with a debug.Record read through the hook records exactly the reference evaluator's evaluated variable / call / member / subscript terms, in completion order, each with its value and the column of its own token + 1 (identifier start, operator token, '(' of a call, '.', '['); (c) Render does not fail, its first line is the source and every recorded value appears at its column on a later line (a value whose text has line breaks on consecutive lines, every piece at that column); (d) a second and third evaluation of the same compiled expression with the same record give the same entries and report; non-trivial = >= 3 recorded terms and an unevaluated branch, a non-ASCII rune before a recorded term, or two values competing for a line"
+	R.Rule = "accepted single-line programs (ASCII and non-ASCII identifiers and strings, a user-registered postfix operator whose token follows its operand, blanks / tabs / carriage returns between tokens, sugar, unevaluated lazy branches, failing operands) over conforming environments; oracle: (a) yae.Debug returns the same value / failure as Eval and the reference, with the environment as a Go struct and again as map[string]interface{} after a call with the same source over a differently typed map of the same Go type; (b) closure.DebugCompile with a debug.Record read through the hook records exactly the reference evaluator's evaluated variable / call / member / subscript terms, in completion order, each with its value and the column of its own token + 1 (identifier start, operator token, '(' of a call, '.', '['); (c) Render does not fail, its first line is the source and every recorded value appears at its column on a later line (a value whose text has line breaks on consecutive lines, every piece at that column); (d) a second and third evaluation of the same compiled expression with the same record give the same entries and report; non-trivial = >= 3 recorded terms and an unevaluated branch, a non-ASCII rune before a recorded term, or two values competing for a line"
 	R.Assume = []string{"ref.Eval's completion order; model.Print's token positions; lazy functions that force a thunk twice (lz_pick) are outside the domain (one term, two evaluations)"}
 	reportKnown(t, "C19")
 	runRegress(t, "C19")
 	c19.Run(t, budget(4000, 240000))
 	c19api.Run(t, budget(3000, 160000))
+	c19post.Run(t, budget(1500, 80000))
 }
